@@ -28,7 +28,8 @@ Open Scope N_scope.
 
 Inductive act :=
 | AConnect (c : N)             (* first use of connection c: a session is opened *)
-| ASql (c : N) (ok : bool)     (* a statement on connection c; [ok = false]: the record fails *)
+| ASql (c : N) (ok : bool)     (* a statement is sent on connection c; [ok = false]: its answer makes the record fail
+                                  (the failure is a step of its own: a cancellation can strike between the two) *)
 | AFail.                       (* the file fails without reaching the engine (parse error ...) *)
 
 Record fcfg := mkF { f_db : str; f_script : list act; f_refused : bool }.
@@ -114,8 +115,7 @@ Definition task_step (f : fcfg) (token noread : bool) (next : N) (k : nat) (t : 
       | AConnect c :: r => (TRunning r ((c, next) :: conns), [PConnect db next], next + 1)
       | ASql c ok :: r =>
           match lookupN c conns with
-          | Some s => if ok then (TRunning r conns, [PSql db s], next)
-                      else (TClosing (RErr (f_refused f)) (map snd conns) had, [PSql db s], next)
+          | Some s => (TRunning (if ok then r else AFail :: r) conns, [PSql db s], next)
           | None => (TRunning r conns, [], next)
           end
       | AFail :: _ => (TClosing (RErr (f_refused f)) (map snd conns) had, [], next)
